@@ -388,3 +388,33 @@ Proof.
   intros Hwf Hr. unfold get_region. destruct (norm_region s rs cs re ce) as [[[rs' cs'] re'] ce'].
   apply map_ext. intros r. apply map_ext. intros c. now apply get_abs_rep.
 Qed.
+
+(** -- the reference determines the screen ------------------------------------------------------ *)
+(** every well-shaped screen represents a reference state: its own reading *)
+Definition abs_of (s : scr) : ascr :=
+  mkA (rows s) (cols s) (cur_r s) (cur_c s) (sav_r s) (sav_c s) (sr_start s) (sr_end s) (fun i j => cell (w s) i j).
+Lemma abs_of_rep s : rep s (abs_of s).
+Proof. unfold rep, abs_of. cbn. repeat split. Qed.
+
+(** ... and two well-shaped screens that represent the same reference state are the same screen, field by field and
+    cell by cell (so "the same screen as the reference" leaves no freedom, e.g. in cells outside the stated ranges) *)
+Theorem rep_injective s1 s2 a : wf s1 -> wf s2 -> rep s1 a -> rep s2 a -> s1 = s2.
+Proof.
+  intros W1 W2 R1 R2.
+  pose proof (grid_rep s1 a W1 R1) as G1. pose proof (grid_rep s2 a W2 R2) as G2.
+  destruct R1 as (A1 & B1 & C1 & D1 & E1 & F1 & H1 & I1 & _).
+  destruct R2 as (A2 & B2 & C2 & D2 & E2 & F2 & H2 & I2 & _).
+  destruct s1, s2. cbn in *. congruence.
+Qed.
+
+(** hence: two histories the reference cannot tell apart (same fields, same cells on the screen - [aeq], no appeal to
+    extensionality of functions) leave the very same screen *)
+Theorem same_reference_same_screen ops1 ops2 s : wf s ->
+  aeq (fold_left astep ops1 (abs_of s)) (fold_left astep ops2 (abs_of s)) ->
+  fold_left sstep ops1 s = fold_left sstep ops2 s.
+Proof.
+  intros W E.
+  destruct (steps_rep ops1 s (abs_of s) W (abs_of_rep s)) as [R1 W1].
+  destruct (steps_rep ops2 s (abs_of s) W (abs_of_rep s)) as [R2 W2].
+  exact (rep_injective _ _ _ W1 W2 (rep_ext _ _ _ R1 E) R2).
+Qed.
